@@ -333,8 +333,10 @@ impl<K: HashKind> Sut<K> {
             );
         }
         // optional warm-ups / preserve hints (must not change anything: C13)
+        // per session: warm up no key, every key, or about half of them
+        let warm_mode = rng.below(4);
         for (k, a) in &batch {
-            if rng.chance(1, 2) {
+            if warm_mode == 1 || (warm_mode >= 2 && rng.chance(1, 2)) {
                 sess.warm_up(*k);
             }
             if matches!(a, Access::Write(_)) && rng.chance(1, 3) {
